@@ -263,6 +263,8 @@ def reader_decider(fe, tparam, tag):
         return True
 
     def decide(e, node):
+        if isinstance(e, ast.Name) and tag and is_tagvar(e, node):
+            return True         # `if py_type:` -- in this scenario the type attribute is the (non-empty) tag
         if isinstance(e, ast.Compare) and len(e.ops) == 1 and is_tagvar(e.left, node):
             r, op = e.comparators[0], e.ops[0]
             rv = cval(fe, r)
@@ -732,9 +734,20 @@ def check_get_constructs(ctx, an, model):
         for k, p in value_sources(get, r.ast.value, r):
             ok, why = False, "returns %s" % (ast.unparse(p)[:50] if isinstance(p, ast.AST) else p)
             if k == "expr" and isinstance(p, ast.Call):
-                passes = any(kk.arg is None and isinstance(kk.value, ast.Name) and kk.value.id == kw for kk in p.keywords)
+                def hands_options(call_):
+                    return any(kk.arg is None and isinstance(kk.value, ast.Name) and kk.value.id == kw for kk in call_.keywords)
+                # the options go to the constructor, or to the inner formatter a wrapper is built around: Wrapper(cls.get(inner, **options))
+                passes = hands_options(p) or any(isinstance(a_, ast.Call) and isinstance(a_.func, ast.Attribute) and a_.func.attr == "get"
+                                                 and isinstance(a_.func.value, ast.Name) and a_.func.value.id == get.self_name and hands_options(a_) for a_ in p.args)
                 callee_src = value_sources(get, p.func, None) if isinstance(p.func, ast.Name) else [("expr", p.func)]
-                from_registry = all(k2 == "expr" and isinstance(q, ast.Subscript) and "registry" in ast.unparse(q.value) for k2, q in callee_src)
+                callee_src = [(k2, q) for k2, q in callee_src if not (k2 == "expr" and isinstance(q, ast.Constant) and q.value is None)]
+
+                def class_table_lookup(q):
+                    """<cls>.<private table>[name] / <cls>.<private table>.get(name)"""
+                    tbl = q.value if isinstance(q, ast.Subscript) else (q.func.value if isinstance(q, ast.Call) and isinstance(q.func, ast.Attribute)
+                                                                        and q.func.attr == "get" else None)
+                    return isinstance(tbl, ast.Attribute) and isinstance(tbl.value, ast.Name) and tbl.value.id == get.self_name and tbl.attr.startswith("_")
+                from_registry = bool(callee_src) and all(k2 == "expr" and isinstance(q, ast.AST) and class_table_lookup(q) for k2, q in callee_src)
                 ok = passes and from_registry
                 why = "constructs the registered class with the given options" if ok else (
                     "the formatter is constructed without the options it was asked for" if not passes else "the class constructed is not the registered one")
